@@ -31,7 +31,7 @@ class Profile:
         self.p_same_dest = 0.15          # request the state that is (probably) active
         self.fills = ["00", "ff", "a5", "5a"]
         self.p_logger_at_construct = 0.5
-        self.p_pair = 0.2                # correlated table entries: two recipients of the same phase of the same call both act
+        self.p_pair = 0.3                # correlated table entries: two recipients of the same phase of the same call both act
         self.__dict__.update(kw)
     def with_(self, **kw):
         p = Profile(**self.__dict__)
